@@ -100,12 +100,16 @@ Fixpoint split_exp (l : list byte) : list byte * list byte :=
   end.
 
 (* JSON_C_TO_STRING_NOZERO.  [rest] = the bytes after the decimal point.
-     p++; for (q = p; q[0]; q++) if (q[0] != '0') p = q;  if (p[0] != 0) { p++; p[0] = 0; }
-   [nozero_span] = (the part the scan runs over, the part kept behind it).  The code as
-   written scans to the end of the buffer — through an exponent, whose digits it then
-   trims (class "nozero_eats_exponent").  A repaired scan that stops at the exponent is
-   the one-line change   nozero_span rest := split_exp rest. *)
-Definition nozero_span (rest : list byte) : list byte * list byte := (rest, []).
+     p++; for (q = p; q[0] && q[0] != 'e' && q[0] != 'E'; q++) if (q[0] != '0') p = q;
+     if (q != p) { p++; memmove(p, q, strlen(q) + 1); size = (p - buf) + strlen(p); }
+   [nozero_span] = (the part the scan runs over, the part kept behind it): the scan stops at
+   the exponent, which is moved up behind the kept digits (json-c commit c53b19e).  Before
+   that commit the scan ran to the end of the buffer, i.e.  nozero_span rest := (rest, []),
+   and trimmed exponent digits (class "nozero_eats_exponent"; SerProofs.nozero_old_scan_eats_exponent).
+   When the fraction is empty (q == p) the code leaves buf and size alone; the model's
+   size := zlen t differs from that only when snprintf truncated, where both are clipped
+   to 127 below. *)
+Definition nozero_span (rest : list byte) : list byte * list byte := split_exp rest.
 
 (* index of the last byte that is not '0' (0 when there is none) *)
 Fixpoint last_nz (l : list byte) (i best : nat) : nat :=
